@@ -13,10 +13,13 @@ import (
 	"os"
 	"os/exec"
 	"path/filepath"
+	"runtime"
 	"sort"
 	"strconv"
 	"strings"
 	"sync"
+	"sync/atomic"
+	"syscall"
 	"time"
 
 	btapb "cloud.google.com/go/bigtable/admin/apiv2/adminpb"
@@ -56,25 +59,131 @@ func cmdRaceWork(args []string) int {
 	seed := fs.Int64("seed", 1, "")
 	secs := fs.Int("secs", 5, "")
 	iters := fs.Int("iters", 1<<30, "")
+	mode := fs.String("mode", "emulators", "emulators | lockmap")
 	fs.Parse(args)
 	installRaceHooks()
 	deadline := time.Now().Add(time.Duration(*secs) * time.Second)
 	n := 0
-	for ; n < *iters && time.Now().Before(deadline); n++ {
+	for ; n < *iters && time.Now().Before(deadline) && racePanic == ""; n++ {
 		s := *seed*1_000_003 + int64(n)
-		if n%2 == 0 {
+		switch {
+		case *mode == "lockmap":
+			raceLockMap(s)
+		case n%2 == 0:
 			raceBT(s)
-		} else {
+		default:
 			raceGCS(s)
 		}
 	}
 	fmt.Printf("RACEWORK iterations=%d\n", n)
+	if racePanic != "" {
+		fmt.Printf("RACEWORK PANIC: %s\n", racePanic)
+		return 67
+	}
 	return 0
 }
 
+// quiet runs one request; a panic of the code under test is recorded (first one wins) - with real
+// parallelism a handler can fail in windows that contain no scheduling point of the simulator.
+var racePanicMu sync.Mutex
+var racePanic string
+
 func quiet(f func()) {
-	defer func() { recover() }() // panics are the simulated part's business; here only races count
+	defer func() {
+		if x := recover(); x != nil {
+			st := stackNow()
+			if underTest(st) {
+				racePanicMu.Lock()
+				if racePanic == "" {
+					racePanic = fmt.Sprintf("%v\n%s", x, trimStack(st))
+				}
+				racePanicMu.Unlock()
+			}
+		}
+	}()
 	f()
+}
+
+func raceFail(format string, a ...interface{}) {
+	racePanicMu.Lock()
+	if racePanic == "" {
+		racePanic = "invariant: " + fmt.Sprintf(format, a...)
+	}
+	racePanicMu.Unlock()
+}
+
+// raceLockMap: the lock map alone under real parallelism (C19's supplement): windows between two
+// instructions that hold no scheduling point (a length check and the send that follows it) are
+// only reachable this way. Invariants: at most one holder per key, false only with a finished
+// context, no entry left at quiescence; a wedged map shows as a hang of the whole run.
+func raceLockMap(seed int64) {
+	rng := rand.New(rand.NewSource(seed))
+	lm := gcsutil.NewTransientLockMap()
+	keys := []string{"k0", "k1"}
+	var holders [2]int32
+	nG := 3 + rng.Intn(4)
+	var wg sync.WaitGroup
+	for g := 0; g < nG; g++ {
+		lr := rand.New(rand.NewSource(seed*41 + int64(g)))
+		wg.Add(1)
+		go func() {
+			defer wg.Done()
+			for i := 0; i < 150; i++ {
+				k := lr.Intn(2)
+				if lr.Intn(4) == 0 {
+					k = 0 // contention on one key
+				}
+				ctx := context.Background()
+				var cancel context.CancelFunc = func() {}
+				switch lr.Intn(5) {
+				case 0:
+					ctx, cancel = context.WithCancel(ctx)
+					cancel() // already done
+				case 1:
+					ctx, cancel = context.WithTimeout(ctx, time.Duration(lr.Intn(50))*time.Microsecond)
+				case 2:
+					var c context.CancelFunc
+					ctx, c = context.WithCancel(ctx)
+					cancel = c
+					go func() { runtime.Gosched(); c() }()
+				}
+				crit := func() {
+					if n := atomic.AddInt32(&holders[k], 1); n != 1 {
+						raceFail("key %s has %d holders", keys[k], n)
+					}
+					if lr.Intn(3) == 0 {
+						runtime.Gosched()
+					}
+					atomic.AddInt32(&holders[k], -1)
+				}
+				if lr.Intn(2) == 0 {
+					if lm.Lock(ctx, keys[k]) {
+						crit()
+						lm.Unlock(keys[k])
+					} else if ctx.Err() == nil {
+						raceFail("Lock returned false although its context is not done")
+					}
+				} else {
+					boom := lr.Intn(6) == 0
+					func() {
+						defer func() { recover() }()
+						lm.Run(ctx, keys[k], func(context.Context) error {
+							crit()
+							if boom {
+								panic("callback")
+							}
+							return nil
+						})
+					}()
+				}
+				cancel()
+			}
+		}()
+	}
+	wg.Wait()
+	if n := lm.VerifLen(); n != 0 {
+		raceFail("lock map retains %d entries although no caller holds or awaits a lock", n)
+	}
 }
 
 func raceBT(seed int64) {
@@ -250,7 +359,13 @@ func raceBin() string { return os.Getenv("VERIF_RACE_BIN") }
 
 // runRaceChild runs one racework process; returns its combined output and whether it reported.
 func runRaceChild(seed int64, secs int) (out string, reported bool, iters int) {
-	cmd := exec.Command(raceBin(), "racework", "-seed", strconv.FormatInt(seed, 10), "-secs", strconv.Itoa(secs))
+	// a run that has not ended two minutes after its own deadline is wedged (a real deadlock):
+	// it is sent SIGQUIT so that the goroutine dump ends up in the output
+	ctx, cancel := context.WithTimeout(context.Background(), time.Duration(secs+120)*time.Second)
+	defer cancel()
+	cmd := exec.CommandContext(ctx, raceBin(), append([]string{"racework", "-seed", strconv.FormatInt(seed, 10), "-secs", strconv.Itoa(secs)}, raceExtraArgs...)...)
+	cmd.Cancel = func() error { return cmd.Process.Signal(syscall.SIGQUIT) }
+	cmd.WaitDelay = 10 * time.Second
 	cmd.Env = append(os.Environ(), "GORACE=halt_on_error=1 exitcode=66")
 	var sb strings.Builder
 	cmd.Stdout = &tailWriter{b: &sb, max: 64000}
@@ -260,15 +375,46 @@ func runRaceChild(seed int64, secs int) (out string, reported bool, iters int) {
 	if i := strings.LastIndex(out, "RACEWORK iterations="); i >= 0 {
 		fmt.Sscanf(out[i:], "RACEWORK iterations=%d", &iters)
 	}
-	if err != nil || strings.Contains(out, "WARNING: DATA RACE") || strings.Contains(out, "fatal error:") {
+	if ctx.Err() != nil {
+		return "RACEWORK HANG: the run did not end within 120 s of its deadline\n" + out, true, iters
+	}
+	if err != nil || strings.Contains(out, "WARNING: DATA RACE") || strings.Contains(out, "fatal error:") || strings.Contains(out, "RACEWORK PANIC:") {
 		return out, true, iters
 	}
 	return out, false, iters
 }
 
+// raceExtraArgs selects the workload of the children (C19: the lock map alone).
+var raceExtraArgs []string
+
 // raceSignature: the first repository frame of each of the two conflicting accesses (or of the
 // goroutine that hit a runtime fatal error), sorted; "" if the output holds no report.
 func raceSignature(out string) (sig string, report string) {
+	if i := strings.Index(out, "RACEWORK HANG:"); i >= 0 {
+		rep := out[i:]
+		if len(rep) > 8000 {
+			rep = rep[:8000]
+		}
+		return "hang: real goroutines wedged", rep
+	}
+	if i := strings.Index(out, "RACEWORK PANIC:"); i >= 0 {
+		rep := out[i:]
+		if len(rep) > 6000 {
+			rep = rep[:6000]
+		}
+		frame := ""
+		for _, l := range strings.Split(rep, "\n") {
+			t := strings.TrimSpace(l)
+			if strings.HasPrefix(t, "github.com/fullstorydev/emulators/") {
+				frame = strings.TrimPrefix(t, "github.com/fullstorydev/emulators/")
+				if j := strings.LastIndex(frame, "("); j > 0 && !strings.Contains(frame[j:], "*") {
+					frame = frame[:j]
+				}
+				break
+			}
+		}
+		return "panic: " + frame, rep
+	}
 	idx := strings.Index(out, "WARNING: DATA RACE")
 	fatal := false
 	if idx < 0 {
@@ -319,8 +465,15 @@ func raceSignature(out string) (sig string, report string) {
 	return kind + ": " + strings.Join(frames, " <-> "), report
 }
 
-func raceSupplement(tier string, master uint64, known []KnownFinding) raceOutcome {
+// raceProp is the property whose supplement is running (C20: both emulators; C19: the lock map).
+var raceProp = "C20"
+
+func raceSupplement(prop, tier string, master uint64, known []KnownFinding) raceOutcome {
 	var ro raceOutcome
+	raceProp = prop
+	if prop == "C19" {
+		raceExtraArgs = []string{"-mode", "lockmap"}
+	}
 	if raceBin() == "" {
 		ro.evidence = map[string]interface{}{"ran": false, "reason": "no race-detector binary (VERIF_RACE_BIN unset)"}
 		return ro
@@ -370,13 +523,13 @@ func raceSupplement(tier string, master uint64, known []KnownFinding) raceOutcom
 	for _, sig := range order {
 		r := sigs[sig]
 		_, report := raceSignature(r.out)
-		v := &Violation{Prop: "C20", Kind: "data-race", Witness: sig, Msg: "race supplement (real goroutines, go build -race), seed " + fmt.Sprint(r.seed) + ":\n" + report}
-		rf := &ReplayFile{Property: "C20", Tier: tier, MasterSeed: master, RunSeed: uint64(r.seed), Generate: true, Violation: v, Class: v.Class(), Race: &RaceReplay{Seed: r.seed, Seconds: 60, Signature: sig}}
-		path := filepath.Join(replayDir("C20"), fmt.Sprintf("C20-race-%d-%x.json", r.seed, hashString(sig)&0xffffff))
+		v := &Violation{Prop: raceProp, Kind: "real-goroutines", Witness: sig, Msg: "race supplement (real goroutines, go build -race), seed " + fmt.Sprint(r.seed) + ":\n" + report}
+		rf := &ReplayFile{Property: prop, Tier: tier, MasterSeed: master, RunSeed: uint64(r.seed), Generate: true, Violation: v, Class: v.Class(), Race: &RaceReplay{Seed: r.seed, Seconds: 60, Signature: sig, Args: raceExtraArgs}}
+		path := filepath.Join(replayDir(prop), fmt.Sprintf("%s-race-%d-%x.json", prop, r.seed, hashString(sig)&0xffffff))
 		b, _ := json.MarshalIndent(rf, "", " ")
 		os.WriteFile(path, b, 0666)
 		if kf := matchKnown(known, v); kf != nil {
-			ro.lines = append(ro.lines, fmt.Sprintf("KNOWN-FINDING: property=C20 %s (witness %s; replay %s)", kf.What, kf.Witness, path))
+			ro.lines = append(ro.lines, fmt.Sprintf("KNOWN-FINDING: property=%s %s (witness %s; replay %s)", prop, kf.What, kf.Witness, path))
 			ro.knownHit = append(ro.knownHit, kf.Witness)
 			continue
 		}
@@ -385,11 +538,11 @@ func raceSupplement(tier string, master uint64, known []KnownFinding) raceOutcom
 			ro.infra = append(ro.infra, fmt.Sprintf("race supplement: the report %q of seed %d did not recur in %d s of re-running that seed (a detector report is a true race, but it is not reported as a violation without a replay):\n%s", sig, r.seed, rf.Race.Seconds, firstLines(report, 60)))
 			continue
 		}
-		ro.lines = append(ro.lines, fmt.Sprintf("VIOLATION property=C20 replay=%s", path), fmt.Sprintf("  class=%s\n  %s", v.Class(), firstLines(report, 30)))
+		ro.lines = append(ro.lines, fmt.Sprintf("VIOLATION property=%s replay=%s", prop, path), fmt.Sprintf("  class=%s\n  %s", v.Class(), firstLines(report, 30)))
 		ro.violations = append(ro.violations, map[string]interface{}{"class": v.Class(), "replay": path, "message": firstLines(report, 12)})
 	}
 	ro.evidence = map[string]interface{}{
-		"ran": true, "what": "NOT simulation: the concurrent request mixes of this check on real goroutines with the repository's real mutexes, in a binary built with the Go race detector (go build -race -tags verif, no simulator installed); a report is a true race, silence proves nothing",
+		"ran": true, "what": "NOT simulation: the concurrent workload of this check on real goroutines with the repository's real mutexes, in a binary built with the Go race detector (go build -race -tags verif, no simulator installed); a report of the detector is a true race; also reported: a panic of the code under test, a broken invariant, a run that wedges; silence proves nothing",
 		"processes": procs, "seconds_each": secs, "iterations": total, "reports": len(order), "signatures": order,
 	}
 	return ro
@@ -407,6 +560,7 @@ func replayRace(rr *RaceReplay) bool {
 	if raceBin() == "" {
 		return false
 	}
+	raceExtraArgs = rr.Args
 	deadline := time.Now().Add(time.Duration(rr.Seconds) * time.Second)
 	for time.Now().Before(deadline) {
 		out, rep, _ := runRaceChild(rr.Seed, 15)
